@@ -2,6 +2,7 @@ import StepModel.ComplexLemmas
 import StepModel.ComplexBuild
 import StepModel.ComplexSafeTop
 import StepModel.ComplexSemHead
+import StepModel.ComplexForest3
 /-!
 # C08 — complex instances are accepted exactly when the supertype constraints allow them
 
@@ -125,6 +126,32 @@ theorem C08_entTree_meaning (s : Schema) (f : Nat) (n : Name) (t : Tree) (ht : e
         else ∃ h, headOf s f e = some h ∧ ((e.abstract = false ∧ SameSet [n] X) ∨ Der (denote h) X)) :=
   entTree_meaning s f n t ht X
 
+-- ------------------------------------------------------------------ forests: tree meaning ⟷ Spec.Legal
+/-- On a forest, the tree of an entity derives exactly the sets that are legal *rooted at that entity* (`Flat`: inside its
+subtree, closed under supertypes below it, every member's own ONEOF/AND/ANDOR rule satisfied over the subtypes present,
+ABSTRACT members have a subtype present); the list of an entity derives those with at least one direct subtype present. -/
+theorem C08_tree_meaning_flat {s : Schema} {lvl : Name → Nat} (W : ForestWF s lvl) (hag : AgreeAll s) (f : Nat) :
+    (∀ n t X, entTree s f n = some t → (Der (denote t) X ↔ Flat s n X)) ∧
+    (∀ e h X, e ∈ s → e.subs ≠ [] → headOf s f e = some h → (Der (denote h) X ↔ Flat s e.name X ∧ present e X ≠ [])) :=
+  tree_flat W hag f
+
+/-- On a forest, `Spec.Legal` (incl. its breadth-first `connected`) is rooted legality at an entity without supertype. -/
+theorem C08_legal_iff_rooted {s : Schema} {lvl : Name → Nat} (W : ForestWF s lvl) (X : List Name) :
+    Legal s X = true ↔ ∃ e ∈ s, e.supers = [] ∧ Flat s e.name X :=
+  ⟨fun h => flat_of_legal W h, fun ⟨_, he, hr, hf⟩ => legal_of_flat W he hr hf⟩
+
+/-- **`eval ∘ collectOf ⟷ Spec.Legal`, partial: single-supertype schemas (forests), sets with ≥ 2 members.**
+Excluded, with the reason: (a) schemas in which some entity has two or more supertypes — there the statement is false
+(`C08_eval_legal_witness_multi`); (b) one-member sets — a non-abstract root alone is legal but no list derives it
+(`C08_eval_legal_witness_single`, finding single-part-refused); (c) ABSTRACT entities without any subtype
+(`ForestWF.abstract_subs`; finding abstract-without-subtypes:accepts-illegal); (d) an expression naming a subtype twice;
+(e) redundant inheritance (`AgreeAll`, checked per schema).  `ForestWF` and `AgreeAll` are checked by the Lean driver
+(`forest`, `implok`) on every generated single-supertype schema. -/
+theorem C08_eval_legal_partial {s : Schema} {lvl : Name → Nat} (W : ForestWF s lvl) (hag : AgreeAll s)
+    (fuel : Nat) (c : Collect) (hc : collectOf s fuel = some c) (X : List Name) (h2 : ∃ a ∈ X, ∃ b ∈ X, a ≠ b) :
+    evalB c [] X = true ↔ Legal s X = true :=
+  eval_legal_forest W hag fuel c hc X h2
+
 -- ------------------------------------------------------------------ regenerated constants the model relies on
 theorem C08_enum_order : markTypeNames = assumedMarkNames ∧ matchTypeNames = assumedMatchNames := by decide
 
@@ -183,5 +210,54 @@ theorem C08_sound_witness :
 (finding `single-part-refused`; ISO 10303-21 wants such an instance in internal mapping). -/
 theorem C08_complete_witness :
     supports exOneofAndorTree [] [0] = .ok false ∧ Legal exOneofAndor [0] = true := by decide +kernel
+
+
+def exLvl : Name → Nat := fun n => if n = 0 then 0 else 1
+
+/-- the hypotheses of `C08_eval_legal_partial` are satisfiable: the ONEOF/ANDOR example schema -/
+theorem exForest : ForestWF exOneofAndor exLvl where
+  nodup := by decide
+  single := by decide
+  subs_iff := by
+    intro e he m
+    simp only [exOneofAndor, List.mem_cons, List.mem_nil_iff, or_false] at he
+    rcases he with rfl | rfl | rfl | rfl <;> simp [exOneofAndor]
+    all_goals (constructor <;> intro h <;> (try rcases h with h | h | h) <;> simp_all)
+  subs_nodup := by decide
+  supers_decl := by decide
+  expr_ok := by
+    intro e he x hx
+    simp only [exOneofAndor, List.mem_cons, List.mem_nil_iff, or_false] at he
+    rcases he with rfl | rfl | rfl | rfl <;> simp at hx
+    subst hx; decide
+  lvl_lt := by decide
+  abstract_subs := by decide
+
+theorem exAgree : AgreeAll exOneofAndor := by
+  intro e he f b hb
+  simp only [exOneofAndor, List.mem_cons, List.mem_nil_iff, or_false] at he
+  rcases he with rfl | rfl | rfl | rfl
+  · cases f with
+    | zero => simp [exprKids, exprKidsL, entTree] at hb
+    | succ f =>
+      simp [exprKids, exprKidsL, entTree, Schema.find, exOneofAndor] at hb
+      subst hb
+      unfold ImplicitAgree; decide
+  all_goals (simp at hb; subst hb; unfold ImplicitAgree; decide)
+
+
+/-- `C08_eval_legal_partial` applied: for the example schema, every request with two or more members is derivable from
+the emitted tree exactly when it is legal -/
+theorem C08_eval_legal_example (X : List Name) (h2 : ∃ a ∈ X, ∃ b ∈ X, a ≠ b) :
+    evalB exOneofAndorTree [] X = true ↔ Legal exOneofAndor X = true :=
+  C08_eval_legal_partial exForest exAgree 50 exOneofAndorTree C08_collectOf_example X h2
+
+/-- the full statement `eval ⟷ Legal` is false with several supertypes: the diamond's tree derives `{a, b, d}` -/
+theorem C08_eval_legal_witness_multi :
+    evalB exDiamondTree [3] [0, 1, 3] = true ∧ Legal exDiamond [0, 1, 3] = false := by decide +kernel
+
+/-- … and for one-member sets: the non-abstract root alone is legal, no list derives it -/
+theorem C08_eval_legal_witness_single :
+    evalB exOneofAndorTree [] [0] = false ∧ Legal exOneofAndor [0] = true := by decide +kernel
 
 end StepModel.Complex
